@@ -45,7 +45,7 @@ def c05(ctx, env):
 
 def c06(ctx, env):
     env.runtime(ctx, {"R-SUM", "R-PAIR", "R-WHO"})
-    env.replay_gen(ctx, {"P5", "P2", "P9", "R-WHO"})
+    env.replay_gen(ctx, {"P5", "P6", "P2", "P9", "R-WHO"})
 
 
 def c07(ctx, env):
@@ -63,9 +63,9 @@ def c08(ctx, env):
 
 def c09(ctx, env):
     env.runtime(ctx, {"R-PANIC", "R-SUM"})
-    env.replay_gen(ctx, {"R-PANIC", "P1", "P2", "P5", "P9", "R-BSEARCH"})
-    env.witnesses(ctx, ["munch", "rctx", "builtins"],
-                  {"COMPILE", "R-PANIC", "P1", "P2", "P5", "P9", "R-BSEARCH", "TV-CTX"}, FLOORS)
+    env.replay_gen(ctx, {"R-PANIC", "P1", "P2", "P3", "P5", "P9", "R-BSEARCH"})
+    env.witnesses(ctx, ["munch", "rctx", "builtins", "eoi"],
+                  {"COMPILE", "R-PANIC", "P1", "P2", "P3", "P5", "P9", "R-BSEARCH", "TV-CTX"}, FLOORS)
 
 
 def c10(ctx, env):
@@ -324,7 +324,8 @@ PROPS = {
                        "next/reset_match/set_accepting_state/backtrack preserve it (R-SUM, R-PAIR); "
                        "no other function writes the five fields (R-WHO over lexgen_util and every "
                        "generated item); the token span is (start after the action, end at the "
-                       "match) read before reset_match (P5).",
+                       "match) read before reset_match (P5); every failure path empties the current "
+                       "match, so the lexeme after an error starts where the error region ends (P6).",
         "trusted_base": RUNTIME_TB + ["unicode_width returns the display width"],
     },
     "C07": {
@@ -361,8 +362,10 @@ PROPS = {
                        "lexgen_util and in all template-generated code equals the allow-list; P1/P2: "
                        "each loop iteration returns or performs exactly one read, the only loop is "
                        "the dispatch loop (segments are acyclic by construction of the extraction, "
-                       "a cycle is reported); P5: no saved match survives an action (no stale "
-                       "rewind loop). The count bound n+1 follows on paper and is not computed.",
+                       "a cycle is reported); P3: every end-of-input arm sets __done first, so the "
+                       "single end-of-input event is acted upon once; P5: no saved match survives an "
+                       "action (no stale rewind loop). The count bound n+1 follows on paper and is "
+                       "not computed.",
         "trusted_base": RUNTIME_TB,
         "assumptions": ["no rule matches the empty string (checked per definition and reported as "
                         "a note, not a violation)"],
